@@ -3,6 +3,7 @@ Adapter to use Polars ( https://www.pola.rs ) in the data algebra.
 
 """
 
+import os
 from typing import Any, Callable, Dict, Iterable, List, Optional, Set
 
 import numpy as np
@@ -17,6 +18,11 @@ import data_algebra.connected_components
 import data_algebra.expression_walker
 import data_algebra.PolarsSQL
 from data_algebra.sql_format_options import SQLFormatOptions
+
+# verification hooks: active only under DATA_ALGEBRA_VERIF=1 (see data_algebra/_verif_trace.py)
+_VERIF_TRACE = None
+if os.environ.get("DATA_ALGEBRA_VERIF") == "1":
+    import data_algebra._verif_trace as _VERIF_TRACE
 
 
 def _build_lit(v):
@@ -788,6 +794,8 @@ class PolarsModel(data_algebra.data_model.DataModel):
         """
         assert isinstance(op, data_algebra.data_ops_types.OperatorPlatform)
         assert isinstance(data_map, Dict)
+        if _VERIF_TRACE is not None:
+            return _VERIF_TRACE.polars_compose(self, op, data_map)
         res = self._method_dispatch_table[op.node_name](op=op, data_map=data_map)
         return res
 
